@@ -70,6 +70,15 @@ def build_harness():
     t = time.time()
     env = dict(os.environ)
     env["CARGO_NET_OFFLINE"] = "true"
+    repo = os.environ.get("VERIF_REPO")
+    if repo and VERIF != "/verif":
+        # background runs from a snapshot of /verif (vp run --with-repo) may point the harness at a snapshot of the
+        # repository; the registered checks always build against /repo itself
+        toml = os.path.join(HARNESS, "Cargo.toml")
+        text = open(toml).read()
+        text2 = re.sub(r'path = "[^"]*"', 'path = "%s"' % repo, text, count=1)
+        if text2 != text:
+            open(toml, "w").write(text2)
     r = subprocess.run(["cargo", "build", "--offline", "-q"], cwd=HARNESS, env=env,
                        stdout=subprocess.PIPE, stderr=subprocess.STDOUT, text=True)
     if r.returncode != 0:
